@@ -224,8 +224,8 @@ Read(s) ==
   /\ ReadEn(c, s)
   /\ LET n == ReadN(c, s)
      IN  Finish(Done(ReadF(c, s)),
-                IF n = 0 THEN Act("Read", s, Scale, 0, "closed")
-                ELSE Act("Read", s, Scale, c.ch[s][n], "ok"))
+                IF n = 0 THEN Act("Read", s, 1, 0, "closed")
+                ELSE Act("Read", s, n, c.ch[s][n], "ok"))
 
 Stop ==
   /\ StopEn(c)
